@@ -155,9 +155,108 @@ def oracle(prog, steps):
     return fails
 
 
+def lexical_expectations(prog):
+    """static reading of 'lexical': for every marked lookup -- (log K) with K >= 1000 directly followed by (usectx ty) -- the value
+    provided by the nearest enclosing block (scope / computation body; run_in: the target scope's chain), from the program text
+    alone. Sound for programs whose provisions are unconditional and precede the lookups and blocks they are compared with, and whose
+    lookups run in live scopes (the self-disposal family below is built that way)."""
+    exp, scopes = {}, {}
+
+    def find(chain, ty):
+        for fr in reversed(chain):
+            if ty in fr:
+                return fr[ty]
+        return None
+
+    def walk(ss, chain):
+        for i, s in enumerate(ss):
+            k = s[0]
+            if k == "provide":
+                chain[-1][s[1]] = s[2][1]
+            elif k == "log" and s[1][0] == "lit" and s[1][1] >= 1000 and i + 1 < len(ss) and ss[i + 1][0] == "usectx":
+                exp[s[1][1]] = (ss[i + 1][1], find(chain, ss[i + 1][1]))
+            elif k == "scope":
+                c2 = chain + [{}]
+                scopes[s[1]] = c2
+                walk(s[2], c2)
+            elif k in ("effect", "memo"):
+                walk(s[2][2], chain + [{}])
+            elif k == "if":
+                walk(s[2], chain)
+                walk(s[3], chain)
+            elif k == "batch":
+                walk(s[1], chain)
+            elif k == "runin" and s[1] in scopes:
+                walk(s[2], scopes[s[1]])
+    root = [{}]
+    scopes[0] = root
+    walk(prog, root)
+    return exp
+
+
+def lexical_failures(prog, steps):
+    exp = lexical_expectations(prog)
+    fails = []
+    if not exp:
+        return fails
+    for k, st in enumerate(steps):
+        ev = st["events"]
+        for i, l in enumerate(ev):
+            if l.startswith("log ") and int(l.split(" ")[1]) in exp:
+                ty, v = exp[int(l.split(" ")[1])]
+                want = "ctx %d %s" % (ty, "none" if v is None else v)
+                got = ev[i + 1] if i + 1 < len(ev) else "(nothing)"
+                if got != want:
+                    fails.append({"oracle": "lookup-is-lexical", "step": k, "marker": int(l.split(" ")[1]), "expected": want, "got": got,
+                                  "known": None})
+        if st["panic"]:
+            fails.append({"oracle": "no-panic-expected", "step": k, "got": st["panic"], "known": None})
+            break
+    return fails
+
+
+def self_disposal():
+    """a computation D whose RE-RUN disposes a scope that owns D, the re-run being nested in other code (another computation's run,
+    run_in, a batch inside those, the top level), which then looks contexts up and provides one: the lookups are lexically in the
+    outer code's scope, whatever D did"""
+    out = []
+    for dk in ("effect", "memo"):
+        for d_on in (False, True):
+            for deep in (False, True):
+                for ctrl in ("effect", "memo", "runin", "runin-batch", "top", "effect-batch"):
+                    cond = ("lt", ("lit", 0), ("getu", 2) if d_on else ("get", 2))
+                    d = (dk, 10, ("body", [2] if d_on else None, [("if", cond, [("dispose", 7)], [])], ("lit", 0)))
+                    inner = [("scope", 8, [("provide", 2, ("lit", 6)), d])] if deep else [d]
+                    dialog = ("scope", 6, [("curscope", 7), ("provide", 1, ("lit", 5))] + inner)
+                    close = ("set", 2, ("lit", 1))
+                    looks = [("log", ("lit", 1001)), ("usectx", 0), ("log", ("lit", 1002)), ("usectx", 1), ("log", ("lit", 1003)), ("usectx", 2)]
+                    after = [("log", ("lit", 1004)), ("usectx", 0), ("log", ("lit", 1005)), ("usectx", 1), ("provide", 3, ("lit", 9)),
+                             ("log", ("lit", 1006)), ("usectx", 3)]
+                    act = looks + [("batch", [close]) if "batch" in ctrl else close] + after
+                    panel = [("provide", 0, ("lit", 2)), ("provide", 1, ("lit", 3)), dialog]
+                    tail = []
+                    if ctrl.startswith("effect") or ctrl == "memo":
+                        panel.append(("memo" if ctrl == "memo" else "effect", 11,
+                                      ("body", None, [("if", ("lt", ("lit", 0), ("get", 1)), act, [])], ("get", 1))))
+                        tail = [("set", 1, ("lit", 1)), ("set", 1, ("lit", 2))]
+                    elif ctrl.startswith("runin"):
+                        tail = [("runin", 5, act)]
+                    else:
+                        tail = [close]
+                    # afterwards: lookups from the top level and through run_in still start where they are written
+                    # (top-level statements are grouped in a batch, which leaves the current scope alone, to keep marker and lookup together)
+                    tail += [("batch", [("log", ("lit", 1007)), ("usectx", 0), ("log", ("lit", 1008)), ("usectx", 1)]),
+                             ("runin", 5, [("log", ("lit", 1009)), ("usectx", 0), ("log", ("lit", 1010)), ("usectx", 1)]),
+                             ("batch", [("provide", 2, ("lit", 8)), ("log", ("lit", 1011)), ("usectx", 2)])]
+                    prog = [("signal", 1, ("lit", 0)), ("signal", 2, ("lit", 0)), ("provide", 0, ("lit", 1)), ("scope", 5, panel)] + tail
+                    out.append(prog)
+    return out
+
+
 def gen(tier, rng):
     n_tree, n_rand = (900, 600) if tier == "quick" else (9000, 6000)
     cases = [("tree:%d" % i, TreeGen(rng).program()) for i in range(n_tree)]
+    cases += [("self-disposal:%d" % i, p) for i, p in enumerate(self_disposal())]
     cases += [("random:%d" % i, p) for i, p in
               enumerate(reactive_gen.random_programs(rng.randrange(1 << 30), n_rand, FEATS, (4, 10), (2, 6), max_nodes=10))]
     return cases
@@ -178,9 +277,11 @@ def nontrivial(prog, steps):
 
 def main(argv):
     return rcheck.run(
-        PID, argv, module="C16", theorems=["C16_use_context_nearest","C16_nearest_functional","C16_lookup_total","C16_shadow_local","C16_duplicate_panics","C16_provide_visible","C16_context_cleared"], gen=gen, oracle=oracle, nontrivial=nontrivial,
+        PID, argv, module="C16", theorems=["C16_use_context_nearest","C16_nearest_functional","C16_lookup_total","C16_shadow_local","C16_duplicate_panics","C16_provide_visible","C16_context_cleared"], gen=gen, oracle=lambda prog, steps: oracle(prog, steps) + lexical_failures(prog, steps), nontrivial=nontrivial,
         rule=("scope trees of depth <= 4 with provisions of 3 types at arbitrary nodes, lookups from every scope, via run_in from "
-              "ancestors/siblings/root, and from effects re-run by later writes; rare duplicate provisions; random programs "
+              "ancestors/siblings/root, and from effects re-run by later writes; rare duplicate provisions; self-disposal shapes (a computation whose re-run, nested in "
+              "another computation / run_in / batch / the top level, disposes its own owner, followed by lookups and a provision in the outer code, "
+              "judged against the lexical reading of the program text); random programs "
               "with contexts provided inside callbacks and disposals (model-vs-code only when outside the reference walk's "
               "vocabulary); non-trivial = some lookup succeeded and some found nothing; distinct = distinct program text"),
         assumptions=["the reference walk takes which effects re-run on a write from the implementation's log (context semantics is what is judged)"])
